@@ -272,7 +272,10 @@ Validates(d, v) ==
             /\ d.val.hasmin => Len(v.items) >= DecVal(Digits(d.val.min))
             /\ d.val.hasmax => Len(v.items) <= DecVal(Digits(d.val.max))
             /\ d.val.unique => \A i \in DOMAIN v.items : \A j \in DOMAIN v.items : (i # j) => ~ValSame(v.items[i], v.items[j])
-  ELSE ScalarValid(d.val, d.type, d.format, v)
+  ELSE /\ ScalarValid(d.val, d.type, d.format, v)
+       \* EmptyStringDefaultIsNoDefault (named deviation; the statement's "default" and "required" clauses both apply): a required
+       \* string parameter whose declared default is "" is still "required" when nothing but "" can be bound (validate's stringValidator)
+       /\ ~(d.type = "string" /\ d.required /\ ~d.allowEmpty /\ d.hasdef /\ d.def = << <<>> >> /\ v.k = "str" /\ v.s = <<>>)
 
 \* ZeroValueValidated (named deviation): whatever is bound - the text's value, the default or the zero value - is validated
 Validated(d, o) == IF o.k = "ok" /\ ~Validates(d, o.val) THEN REJ ELSE o
